@@ -285,6 +285,44 @@ R5["C20"] = (("Props/C20.lean, 31", "Props/C20.lean 31 + Props/C20Tie.lean 8"), 
 R5["C19"] = (("Props/C19.lean, 30", "Props/C19.lean 30 + Props/C19Tie.lean 13"), TIE % ("C19", "the maxCapa tests, minimum capacity, 64-alignment, the doubling loop, the halving retry step, heap parent/child choice"))
 R5["C16"] = (("Props/C16.lean 30 + Props/C16Htb.lean 39", "Props/C16.lean 30 + Props/C16Htb.lean 39 + Props/C16Tie.lean 5"), TIE % ("C16", "htb initial capacity/factor/threshold, the growth rule and threshold of reorganize"))
 R5["C11"] = (("Props/C11.lean, 25", "Props/C11.lean 25 + Props/C11Tie.lean 9"), TIE % ("C11", "__cmp_ensure_not_equal for all hints, five leaf comparators, the CMP_ERROR test and sign mirror"))
+R5["C08"] = (("Props/C08.lean, 27", "Props/C08.lean, 36"),
+    "Round 5: the storage layer itself is inside the model: parse_block's slot layout (outer_nlcls/org_nlcls/nlcls_max) and run_block0's push and reset of block-level locals, by-reference calls over stack garbage "
+    "(ExprBlock.lean); block_locals_scoped / block_placement_independent / block_frame_top / byref_block_call prove that the flat frame simulates lexically scoped locals for all programs of the model language, "
+    "all non-aliasing placements and all garbage histories in the dead slots; the node-type -> evaluator table, do_assignment's switch and the block constants are regenerated from run.c/parse.c (extract/op_tables.py) and "
+    "tied by theorems; a block-locals family (depth 1-3 x enclosing locals x six same-frame histories) closes the round-4 miss as a class.")
+R5["C04"] = (("Props/C04.lean, 30", "Props/C04.lean 35 + Props/C04Stack.lean 10"),
+    "Round 5: separator assignment and the readers' mode selection over ALL histories of RS/FS/CONVFMT/IGNORECASE assignments (mode_fixed_at_last_assignment, regex_mode_only_with_compiled_regex; the unrepaired reader modelled "
+    "beside it with the crash witness) - the float-RS/FS-across-CONVFMT crash family is repaired in /repo (5492055); the layers below rio are inside the model by composing C15's tio model: chunk independence is proved bytes -> "
+    "characters -> records for all partitions and codecs, single and multi-file (records_from_bytes_chunk_independent, console_from_bytes_eq_spec); buffer sizes regenerated from the headers (extract/rio_sizes.py).")
+R5["C17"] = (("Props/C17.lean, 13", "Props/C17.lean, 23"),
+    "Round 5: the STATEMENT language is inside the model and the proof: printS transcribes print_stmt byte for byte, parseStmt transcribes the statement parser (blocks with @local, if/else incl. dangling else and ladders, "
+    "while, do-while, for in every form, for-in, jump statements, delete/@reset, print/printf with argument lists); stmt_roundtrip_partial / stmt_print_stable / stmt_roundtrip_twice_partial prove acceptance, equivalence and textual "
+    "stability of the second generation for every parser-returnable statement tree (excluded and named: print WITH a redirection - half proved -, getline, the top level); keyword and redirection spellings regenerated from "
+    "kwtab[] / print_outop_str[] (extract/keywords.py); every block of every deparsed program is re-read and re-printed by the model and compared with hawk's second deparse byte for byte. New recorded finding: deparse-float-precision.")
+R5["C18"] = (("Props/C18.lean, 44", "Props/C18.lean, 59"),
+    "Round 5: the script COMPILER of sed.c is inside the model (SedParse.lean transcribes hawk_sed_comp and every argument reader character by character; harness/sedc_h.c dumps the compiled hawk_sed_cmd_t chain of the real "
+    "code - regex sources, arguments, resolved branch targets, error codes - under three chunkings of the script stream); compileText_total, parse_balanced, parse_labels_unique, parse_well_addressed, compile_targets_inside, a "
+    "printer with parseScript (printCmds cs) = cs for all commands except regex addresses and s, the -e/-f joining rules, y as a pointwise map.")
+R5["C06"] = (("Props/C06.lean, 34", "Props/C06.lean, 46"),
+    "Round 5: TRE's front end is inside the model: RexParse.lean transcribes tre-parse.c and produces TRE's syntax tree node for node (harness/rexparse_h.c dumps the real tree after tre_parse(); ~70k patterns per quick run "
+    "incl. exhaustive syntax strings, all eight reject classes); the campaign's Lean matcher now runs on that tree; theorems: tree denotation = POSIX denotation (partial: negated-class lists and classes under ICASE excluded), "
+    "the verified matcher on the parsed tree is leftmost-longest, submatch marking is language-neutral, a negated bracket is exactly the complement for every item list; tre_macros/ASSERT_* regenerated (extract/tre_tables.py). "
+    "What remains untied is exactly tre-compile.c and the two simulations. One defect repaired (a014671).")
+R5["C09"] = (("Props/C09.lean, 23", "Props/C09.lean, 46"),
+    "Round 5: a second, object-level model (CtxApi.lean) over several hawk_t each with several runtimes: open/close/clear/parse, callback chains, addgbl/delgbl/addfnc/delfnc, error number per object, halt vs haltall, "
+    "options, application handles with refup/refdown/refdown_nofree, setgbl/getgbl, getvaloocstr/valtostr ownership modes; 23 theorems for all interleavings (non-interference, commutation, error-per-object with the one documented "
+    "leak to the hawk's error number, halt locality, callback order and exactly-once, nothing touched after close); harness/ctxapi_h.c with one owner-tagging counting allocator per hawk_t judged interleaved vs projected; a "
+    "ThreadSanitizer oracle (one hawk_t per thread) for hidden shared globals; extract/c09_clear_fields.py ties 'a reset interpreter is a fresh one' to hawk_clear() field by field. Two defects repaired (123d282, 2f4375d).")
+R5["C12"] = (("Props/C12.lean, 23", "Props/C12.lean, 40"),
+    "Round 5: the float branch is trusted only for libc's digit generation: FmtOut.lean transcribes fmt.c's specifier buffer, re-composition, the snprintf call/retry loop and delivery with libc as a parameter constrained "
+    "only by snprintf's contract (float_spec_denotes, float_spec_fits_buffer, float_out_delivers_untruncated, float_out_is_libc); the harness interposes on snprintf at link time and compares format text, argument and buffer "
+    "protocol with the model on every float conversion; the two formatters' scratch buffers over sequences (scratch_* theorems, wide/byte sequences straddling the growth steps); both dispatch chains, integer switches and the flag "
+    "order regenerated from run.c/fmt.c (extract/fmt_dispatch.py) with tie theorems. One defect repaired (21c63f2).")
+R5["C01"] = (("Props/C01.lean, 14", "Props/C01.lean, 19"),
+    "Round 5: four more regenerated tables over a shared dominating-facts walker (extract/c01_paths.py): arg_index_below_arity (74 hawk_rtx_getarg sites against the function-table arity or a dominating nargs test), "
+    "subscripts_in_range (504 subscripts into fixed-length arrays: 396 classified and bounded, 108 pinned to a 49-function residue list; enum-indexed tables sized to their enums), switch_total (88 switches over enumerators), "
+    "retry_measure_decreases (every retry-after-failure loop has a give-up test and a strictly decreasing step), fmt_number_scan_bounded; six new campaign families (value-type setter histories with CONVFMT between caching and use, "
+    "huge counts, raw NUL/invalid UTF-8, end of input inside every token kind, twin wide/byte sequences with scratch-buffer history, far-out hawk::array subscripts, -m memory limits).")
 for _pid, (_cnt, _txt) in R5.items():
     if _cnt:
         assert _cnt[0] in E[_pid]["text"], (_pid, _cnt[0])
